@@ -467,8 +467,34 @@ void spki_cb(struct spki_table *, const spki_record rec, const bool added)
 		W->ctx.viol("C10", "cb-rm-absent", "C10:cb:remove-of-absent", "callback reports removal of %s which the log does not hold", r.str().c_str());
 }
 
+// C13: a synchronisation that ended because the socket was being stopped (it returned early, or its thread was cancelled
+// inside it) may or may not have acted on a licensed downgrade trigger that was in its stream (first PDU of the connection
+// in a lower version, Unsupported-Version report, hang-up before a session exists): either version is accepted at the next
+// query. Without such a trigger nothing is licensed.
+void version_effects_of_interrupted_sync(World &W, Peer &p, Belief &b, const Exchange &x, const Walk &w, size_t from)
+{
+	(void)W;
+	if (w.downgraded && p.consumed >= from + 8)
+		b.version = w.version_after;
+	else if (b.version > 0 && (w.downgraded || (w.kind == WK_ERR_PDU && w.err_code == 4 && w.err_ver >= 0 && w.err_ver < b.version) ||
+				   (!x.at_query.has_session && (x.closes || w.kind == WK_INCOMPLETE))))
+		p.may_downgrade = true;
+}
+
 void check_stopped_socket(World &W, int si, const char *when)
 {
+	{
+		Peer &p = W.peers[(size_t)si];
+		if (p.in_sync && p.cur_x >= 0) { // cancelled inside rtr_sync: that call never returned to its audit
+			Exchange &x = p.xs[(size_t)p.cur_x];
+			Exchange view = x;
+			size_t from = p.sync_enter_consumed, end = p.in_stream.size();
+			view.bytes.assign(p.in_stream.begin() + (long)(from < end ? from : end), p.in_stream.begin() + (long)end);
+			Walk w = walk_exchange(view, !p.hdr_seen);
+			version_effects_of_interrupted_sync(W, p, W.belief[(size_t)si], x, w, from);
+			W.ctx.count("probe_sync_cancelled_by_stop");
+		}
+	}
 	sim_nopreempt_begin();
 	simalloc_pause(1);
 	struct End {
@@ -1104,11 +1130,7 @@ void sync_exit_locked(World &W, int si, int rc)
 		// C13: the interrupted synchronisation may or may not have acted on a licensed downgrade trigger that was in its
 		// stream (first PDU of the connection in a lower version, Unsupported-Version report, hang-up before a session
 		// exists): either version is accepted at the next query. Without such a trigger nothing is licensed.
-		if (w.downgraded && p.consumed >= from + 8)
-			b.version = w.version_after;
-		else if (b.version > 0 && (w.downgraded || (w.kind == WK_ERR_PDU && w.err_code == 4 && w.err_ver >= 0 && w.err_ver < b.version) ||
-					   (!x.at_query.has_session && (x.closes || w.kind == WK_INCOMPLETE))))
-			p.may_downgrade = true;
+		version_effects_of_interrupted_sync(W, p, b, x, w, from);
 		return;
 	}
 	// one instant for both tables: an enumeration that had to wait for a table lock (held by a preempted socket thread) let
@@ -1222,8 +1244,18 @@ void sync_exit_locked(World &W, int si, int rc)
 			if (pos != lim)
 				mutated = true;
 		}
-		bool stream_honest = !mutated || !(w.kind == WK_OK && !must_fail) ||
-				     (w.new_pfx == p.data && w.new_spki == (w.version_after >= 1 ? p.keys : std::set<SpkiRec>()));
+		// (for a mutated answer: what it amounted to must be the cache's data set at the serial its End of Data announced;
+		// the cache's data may have moved on since)
+		const std::set<PfxRec> *hp = &p.data;
+		const std::set<SpkiRec> *hk = &p.keys;
+		auto hit = p.hist.find(w.serial);
+		if (w.kind == WK_OK && w.session == p.session && hit != p.hist.end()) {
+			hp = &hit->second.first;
+			hk = &hit->second.second;
+		}
+		bool stream_honest = !mutated || !(w.kind == WK_OK && !must_fail) || (w.new_pfx == *hp && w.new_spki == (w.version_after >= 1 ? *hk : std::set<SpkiRec>()));
+		W.note("honesty s%d x=%d mutated=%d honest=%d tainted=%d walk_keys=%zu cache_keys=%zu client_keys=%zu", si, x.id, (int)mutated, (int)stream_honest,
+		       (int)p.tainted, w.new_spki.size(), p.keys.size(), as.size());
 		if (!stream_honest && !p.tainted) {
 			p.tainted = true;
 			W.ctx.count("probe_accepted_response_not_cache_state");
@@ -1231,7 +1263,8 @@ void sync_exit_locked(World &W, int si, int rc)
 		// a version-0 connection carries no router keys: keys the client still holds from a version-1 past of the same
 		// session are outside what the cache can govern, so they are not part of the comparison then
 		bool equal_now = ap == p.data && (b.version >= 1 ? as == p.keys : true);
-		if (stream_honest && equal_now)
+		// (the wrong base is gone once the client holds the cache's current data under the cache's current serial)
+		if (stream_honest && equal_now && b.has_session && b.session == p.session && b.serial == p.serial)
 			p.tainted = false;
 		if (p.clean && equal_now && !p.converged) {
 			p.converged = true;
@@ -2088,9 +2121,10 @@ void run_world(const J &plan, RunCtx &ctx)
 					} else if (now > p.t_clean + bound) {
 						ctx.viol("C08", "no-reconvergence", "C08:liveness:not-converged",
 							 "socket %d: %llu s after the cache started answering correctly again the client is in state %d with %zu/%zu prefix "
-							 "records of that cache (cache has %zu) - bound was %llu s",
+							 "records of that cache (cache has %zu) and %zu router keys (cache has %zu, version %d) - bound was %llu s",
 							 i, (unsigned long long)((now - p.t_clean) / SIM_NS), (int)W.socks[(size_t)i].state,
-							 of_src(actual_pfx_all(W), i).size(), W.model_pfx[(size_t)i].size(), p.data.size(), (unsigned long long)(bound / SIM_NS));
+							 of_src(actual_pfx_all(W), i).size(), W.model_pfx[(size_t)i].size(), p.data.size(),
+							 of_src(actual_spki_all(W), i).size(), p.keys.size(), b.version, (unsigned long long)(bound / SIM_NS));
 						p.converged = true; // report once
 					}
 				}
